@@ -19,6 +19,10 @@ open Hertz Hertz.H1
 theorem reject_is_clean (cfg : Cfg) (e : End) (s : Bytes) : cleanTrace (serve cfg e s) = true :=
   serve_clean cfg e s
 
+/-- A chunk-size line is read into a Go `int`: the number of hex digits `ReadHexInt` accepts must keep
+the value below 2^63, otherwise the size goes negative and the body reader slices with it. -/
+theorem chunk_size_fits_int : (16 : Int) ^ Gen.maxHexIntChars.toNat ≤ 2 ^ 63 := by decide
+
 theorem empty_trailer_name_is_bad : isBadTrailer [] = true := rfl
 
 /-- non-vacuity: a malformed request line is answered by exactly one closing 400. -/
